@@ -400,6 +400,24 @@ theorem allMCISP_nodup (P : Problem) (hT : P.tnodes.Nodup) (hS : P.pnodes.Nodup)
     have h2 := ((mem_extend_iff P S' m).1 hm').dom
     exact hne (h1.symm.trans h2)
 
+/-! ### what `ncol` / `ecol` mean in terms of the node and edge lists -/
+
+theorem ecol_isSome_iff (g : Graph) (u v : Int) :
+    (g.ecol u v).isSome = true ↔ ∃ e ∈ g.edges, (e.1 = u ∧ e.2.1 = v) ∨ (e.1 = v ∧ e.2.1 = u) := by
+  simp [Graph.ecol, joins]
+
+theorem ncol_isSome_iff (g : Graph) (u : Int) : (g.ncol u).isSome = true ↔ u ∈ g.keys := by
+  unfold Graph.ncol Graph.keys
+  induction g.nodes with
+  | nil => simp
+  | cons x rest ih =>
+    obtain ⟨a, b⟩ := x
+    rw [List.lookup_cons]
+    by_cases h : u = a
+    · subst h; simp
+    · have : (u == a) = false := by simpa using h
+      simp [this, ih, h]
+
 /-! ### `AutEquiv` is an equivalence relation -/
 
 /-- the map with domain `{u ∈ K | φ u ≠ none}` listed along `K` -/
@@ -647,5 +665,77 @@ theorem autEquiv_equivalence (sg : Graph) (hs : sg.keys.Nodup) :
     intro u hu
     rw [lookup_ofFun]
     simp [(hf'.node u hu).1]
+
+/-! ### the greedy representatives are an accepted output -/
+
+theorem classRepsWith_spec (sg : Graph) (hs : sg.keys.Nodup) (full reps done : List Map)
+    (hfull : ∀ f ∈ full, (f.map Prod.fst).Sublist sg.keys)
+    (h1 : ∀ r ∈ reps, r ∈ done)
+    (h2 : reps.Pairwise (fun m m' => ¬ AutEquiv sg m m' ∧ ¬ AutEquiv sg m' m))
+    (h3 : ∀ f ∈ done, ∃ r ∈ reps, AutEquiv sg r f) :
+    (∀ r ∈ classRepsWith (auts sg) sg.keys full reps, r ∈ done ++ full)
+    ∧ (classRepsWith (auts sg) sg.keys full reps).Pairwise (fun m m' => ¬ AutEquiv sg m m' ∧ ¬ AutEquiv sg m' m)
+    ∧ (∀ f ∈ done ++ full, ∃ r ∈ classRepsWith (auts sg) sg.keys full reps, AutEquiv sg r f) := by
+  obtain ⟨hrefl, hsymm, _⟩ := autEquiv_equivalence sg hs
+  induction full generalizing reps done with
+  | nil =>
+    simp only [classRepsWith, List.mem_reverse, List.append_nil]
+    refine ⟨h1, ?_, h3⟩
+    rw [List.pairwise_reverse]
+    exact h2.imp (fun h => ⟨h.2, h.1⟩)
+  | cons f rest ih =>
+    have hf := hfull f (by simp)
+    have hrest : ∀ f' ∈ rest, (f'.map Prod.fst).Sublist sg.keys := fun f' h => hfull f' (by simp [h])
+    have happ : done ++ f :: rest = (done ++ [f]) ++ rest := by simp
+    simp only [classRepsWith]
+    split
+    · rename_i hany
+      obtain ⟨r, hr, hrf⟩ := List.any_eq_true.1 hany
+      have hrf' : AutEquiv sg r f := (autEquivB_iff sg r f).1 hrf
+      rw [happ]
+      apply ih reps (done ++ [f]) hrest
+      · intro r hr; simp [h1 r hr]
+      · exact h2
+      · intro x hx
+        rcases List.mem_append.1 hx with hx | hx
+        · exact h3 x hx
+        · have : x = f := by simpa using hx
+          subst this; exact ⟨r, hr, hrf'⟩
+    · rename_i hany
+      have hno : ∀ r ∈ reps, ¬ AutEquiv sg r f := by
+        intro r hr hrf
+        apply hany
+        exact List.any_eq_true.2 ⟨r, hr, (autEquivB_iff sg r f).2 hrf⟩
+      rw [happ]
+      apply ih (f :: reps) (done ++ [f]) hrest
+      · intro r hr
+        rcases List.mem_cons.1 hr with rfl | hr
+        · simp
+        · simp [h1 r hr]
+      · rw [List.pairwise_cons]
+        refine ⟨?_, h2⟩
+        intro r hr
+        exact ⟨fun h => hno r hr (hsymm _ _ hf h), hno r hr⟩
+      · intro x hx
+        rcases List.mem_append.1 hx with hx | hx
+        · obtain ⟨r, hr, h⟩ := h3 x hx
+          exact ⟨r, List.mem_cons_of_mem _ hr, h⟩
+        · have : x = f := by simpa using hx
+          subst this; exact ⟨x, List.mem_cons_self .., hrefl x hf⟩
+
+/-- the greedy list of class representatives is accepted by the checker, so for every full
+answer there IS an output the statement allows -/
+theorem classReps_accepted (sg : Graph) (hs : sg.keys.Nodup) (full : List Map)
+    (hfull : ∀ f ∈ full, (f.map Prod.fst).Sublist sg.keys) :
+    oneRepPerClass sg (classReps sg full) full = true := by
+  obtain ⟨hrefl, _, _⟩ := autEquiv_equivalence sg hs
+  have h := classRepsWith_spec sg hs full [] [] hfull (by simp) List.Pairwise.nil (by simp)
+  simp only [List.nil_append] at h
+  rw [oneRepPerClass_iff]
+  refine ⟨h.1, ?_, h.2.1, h.2.2⟩
+  refine h.2.1.imp_of_mem ?_
+  intro a b ha _ hab e
+  subst e
+  exact hab.1 (hrefl a (hfull a (h.1 a ha)))
 
 end Iso
